@@ -1,27 +1,40 @@
-"""C15 constants: value/category/field-key limits, HTTP method list, `block_end_map`, the
-ShutdownHandler threshold and exit status, and the shape facts of `cli.create_flows`
-(output opened only after `converters.create_flows` returned; `None` passed as its
-`output_file`).  Literals only, read with `ast` from /repo's working tree on every run."""
+"""C15 constants: value / category / field-key limits, HTTP method list, block terminator and opener
+tables, the ShutdownHandler threshold and exit status, and the shape facts of `cli.create_flows`.
+
+HOW IT READS (DESIGN §2.5a)
+* length limits (contact field value, run result, category name, field key): BEHAVIOUR — the public
+  constructor / function is called with texts of growing length; the limit is the longest accepted
+  one (`len(x) > 640`, `>= 641`, a hoisted `MAX_…` constant all give 640).
+* empty send_msg text refused: BEHAVIOUR (`SendMessageAction(text="")` raises, `"x"` does not).
+* HTTP methods, default method: BEHAVIOUR — `CallWebhookNode(result_name=…, url=…, method=w)` for
+  every candidate word; the default is the method of the action built when none is given.  A SET:
+  emitted SORTED, compared up to order.
+* block terminator table, root block name, block opener table: SOURCE STRUCTURE located BY CONTENT in
+  whatever method of `FlowParser` holds it — the `<row>.type in T` test whose `T` resolves to a dict
+  (literal in the function, local, or hoisted to module / class level), the `<name> == <constant>`
+  next to it, and the `if <row>.type == "begin_…":` branches that pass one of the table's block types
+  as a constant argument.  Lookup tables with distinct keys: SORTED by key, compared up to order.
+* ShutdownHandler: BEHAVIOUR — an instance writing to a scratch file is fed one record per level
+  0…60; the levels at which it exits, the exit status and whether it wrote to stderr are observed.
+  Installed: `initialize_main_logger(scratch)` is run against a saved / restored `main` logger and the
+  handlers it added are inspected.
+* `cli.py` (public entry points `create_flows`, `main`; the module cannot be imported without side
+  effects): SOURCE STRUCTURE — output opened only after `converters.create_flows` returned, `None`
+  passed as its `output_file`, no try/except around it, the logger initialised at import.
+"""
 import ast
+import contextlib
+import io
 import logging
+import os
+import shutil
+import tempfile
 
-from ..extract_tables import _find_class, _find_func, _parse, lean_str, lean_str_list, lean_pairs
+from .. import t1lib
+from ..extract_tables import _find_class, _find_func, _parse, lean_pairs, lean_str, lean_str_list
 
-
-def _gt_len_limits(func: ast.FunctionDef):
-    """integer constants of tests `len(x) > N` inside func"""
-    out = []
-    for n in ast.walk(func):
-        if (isinstance(n, ast.Compare) and len(n.ops) == 1 and isinstance(n.ops[0], ast.Gt)
-                and isinstance(n.left, ast.Call) and isinstance(n.left.func, ast.Name) and n.left.func.id == "len"
-                and isinstance(n.comparators[0], ast.Constant) and isinstance(n.comparators[0].value, int)):
-            out.append(n.comparators[0].value)
-    return out
-
-
-def _one(xs, what):
-    assert len(xs) == 1, (what, xs)
-    return xs[0]
+PROBE_MAX = 4096
+HTTP_WORDS = ["GET", "HEAD", "POST", "PUT", "DELETE", "CONNECT", "OPTIONS", "TRACE", "PATCH", "LINK", "UNLINK", "PURGE"]
 
 
 def _bool(b) -> str:
@@ -29,109 +42,156 @@ def _bool(b) -> str:
 
 
 def _is_call_to(node, dotted: str) -> bool:
-    if not isinstance(node, ast.Call):
-        return False
-    f = node.func
-    parts = []
-    while isinstance(f, ast.Attribute):
-        parts.append(f.attr)
-        f = f.value
-    if isinstance(f, ast.Name):
-        parts.append(f.id)
-    return ".".join(reversed(parts)) == dotted
+    return isinstance(node, ast.Call) and t1lib.dotted(node.func) == dotted
 
 
-def tables() -> str:
-    actions = _parse("rapidpro/models/actions.py")
-    field_limit = _one(_gt_len_limits(_find_func(_find_class(actions, "SetContactFieldAction"), "__init__")), "field value limit")
-    result_limit = _one(_gt_len_limits(_find_func(_find_class(actions, "SetRunResultAction"), "__init__")), "run result limit")
-    # SendMessageAction.__init__: `if not text: raise RapidProActionError`
-    sm = _find_func(_find_class(actions, "SendMessageAction"), "__init__")
-    empty_text_checked = any(
-        isinstance(n, ast.If) and isinstance(n.test, ast.UnaryOp) and isinstance(n.test.op, ast.Not)
-        and isinstance(n.test.operand, ast.Name) and n.test.operand.id == "text"
-        and any(isinstance(b, ast.Raise) for b in n.body)
-        for n in ast.walk(sm)
-    )
+def length_limit(accepts, what: str) -> int:
+    """the longest length `accepts` takes, provided acceptance is downward closed up to PROBE_MAX"""
+    ok = [accepts(n) for n in range(PROBE_MAX + 1)]
+    assert ok[1] and not ok[PROBE_MAX], (what, "no limit between 1 and", PROBE_MAX)
+    limit = max(n for n in range(PROBE_MAX + 1) if ok[n])
+    assert all(ok[n] for n in range(1, limit + 1)) and not any(ok[n] for n in range(limit + 1, PROBE_MAX + 1)), (what, "not a threshold")
+    return limit
 
-    routers = _parse("rapidpro/models/routers.py")
-    cat_limit = _one(_gt_len_limits(_find_func(_find_class(routers, "RouterCategory"), "__init__")), "category name limit")
 
-    gk = _find_func(_parse("rapidpro/models/common.py"), "generate_field_key")
-    key_limit = _one([
-        n.comparators[0].value for n in ast.walk(gk)
-        if isinstance(n, ast.Compare) and isinstance(n.ops[0], ast.LtE) and isinstance(n.comparators[0], ast.Constant)
-    ], "field key limit")
+def _accepts(fn, exc):
+    def run(n):
+        try:
+            fn("a" * n)
+        except exc:
+            return False
+        return True
+    return run
 
-    nodes = _parse("rapidpro/models/nodes.py")
-    wh = _find_func(_find_class(nodes, "CallWebhookNode"), "__init__")
-    methods, default_method = None, None
-    for n in ast.walk(wh):
-        if isinstance(n, ast.Assign) and isinstance(n.targets[0], ast.Name):
-            if n.targets[0].id == "http_methods":
-                methods = ast.literal_eval(n.value)
-            if n.targets[0].id == "method" and isinstance(n.value, ast.BoolOp) and isinstance(n.value.op, ast.Or):
-                default_method = n.value.values[-1].value
-    assert isinstance(methods, list) and all(isinstance(m, str) for m in methods), methods
-    assert isinstance(default_method, str)
 
-    fp = _parse("parsers/creation/flowparser.py")
-    ieb = _find_func(_find_class(fp, "FlowParser"), "_is_end_of_block")
-    bem = None
-    for n in ast.walk(ieb):
-        if isinstance(n, ast.Assign) and isinstance(n.targets[0], ast.Name) and n.targets[0].id == "block_end_map":
-            bem = ast.literal_eval(n.value)
-    assert isinstance(bem, dict), bem
-    root_names = [
-        n.comparators[0].value for n in ast.walk(ieb)
-        if isinstance(n, ast.Compare) and isinstance(n.left, ast.Name) and n.left.id == "block_type"
-        and isinstance(n.ops[0], ast.Eq) and isinstance(n.comparators[0], ast.Constant)
-    ]
-    root_name = _one(root_names, "root block name")
-    # the block types passed by _parse_block for begin_for / begin_block rows
-    pb = _find_func(_find_class(fp, "FlowParser"), "_parse_block")
+def probe_limits():
+    actions = t1lib.load("rpft.rapidpro.models.actions")
+    routers = t1lib.load("rpft.rapidpro.models.routers")
+    common = t1lib.load("rpft.rapidpro.models.common")
+    from rpft.rapidpro.models.exceptions import RapidProActionError, RapidProRouterError
+
+    field_limit = length_limit(_accepts(lambda v: actions.SetContactFieldAction("name", v), RapidProActionError), "field value limit")
+    result_limit = length_limit(_accepts(lambda v: actions.SetRunResultAction("name", v), RapidProActionError), "run result limit")
+    cat_limit = length_limit(_accepts(lambda v: routers.RouterCategory(v), RapidProRouterError), "category name limit")
+    key_limit = length_limit(_accepts(common.generate_field_key, RapidProActionError), "field key limit")
+
+    def send(text):
+        try:
+            actions.SendMessageAction(text=text)
+        except RapidProActionError:
+            return False
+        return True
+
+    empty_text_checked = send("x") and not send("")
+    return field_limit, result_limit, cat_limit, key_limit, empty_text_checked
+
+
+def probe_http():
+    nodes = t1lib.load("rpft.rapidpro.models.nodes")
+    words = list(HTTP_WORDS) + [w.lower() for w in HTTP_WORDS]
+    words += [w for w in t1lib.str_constants(_parse("rapidpro/models/nodes.py")) if w not in words and w]
+    ok = []
+    for w in words:
+        try:
+            nodes.CallWebhookNode(result_name="r", url="http://t1.probe/", method=w)
+        except Exception:  # noqa: BLE001
+            continue
+        ok.append(w)
+    n = nodes.CallWebhookNode(result_name="r", url="http://t1.probe/")
+    methods = [a.method for a in n.actions if hasattr(a, "method")]
+    default_method = t1lib.one(methods, "webhook action of a node built without a method")
+    assert ok and isinstance(default_method, str)
+    return sorted(ok), default_method
+
+
+def block_tables():
+    fp_mod = t1lib.load("rpft.parsers.creation.flowparser")
+    cls = _find_class(_parse("parsers/creation/flowparser.py"), "FlowParser")
+    resolve = t1lib.Resolver(fp_mod.FlowParser, fp_mod)
+
+    def is_row_type(n):
+        return isinstance(n, ast.Attribute) and n.attr == "type" and isinstance(n.value, ast.Name)
+
+    # `<row>.type in T` with T a dict  (block terminators), and the function it sits in
+    found = []
+    for fn in t1lib.functions(cls):
+        for n in t1lib.find_all(fn, lambda n: isinstance(n, ast.Compare) and len(n.ops) == 1 and isinstance(n.ops[0], ast.In) and is_row_type(n.left)):
+            try:
+                v = resolve(n.comparators[0], fn)
+            except KeyError:
+                continue
+            if isinstance(v, dict) and v and all(isinstance(k, str) and isinstance(x, str) for k, x in v.items()):
+                found.append((fn, v))
+    fn, bem = t1lib.one(found, "test `<row>.type in <dict>` in FlowParser")
+    root_names = {
+        n.comparators[0].value for n in ast.walk(fn)
+        if isinstance(n, ast.Compare) and len(n.ops) == 1 and isinstance(n.ops[0], ast.Eq) and isinstance(n.left, ast.Name)
+        and isinstance(n.comparators[0], ast.Constant) and isinstance(n.comparators[0].value, str)
+    }
+    root_name = t1lib.one(root_names, "root block name")
+    # openers: `if <row>.type == "w": … f(…, "<block type>", …)` with a block type of the terminator table
+    block_types = set(bem.values())
     opened = {}
-    for n in ast.walk(pb):
-        if isinstance(n, ast.If) and isinstance(n.test, ast.Compare) and isinstance(n.test.ops[0], ast.Eq) \
-                and isinstance(n.test.comparators[0], ast.Constant) and n.test.comparators[0].value in ("begin_for", "begin_block"):
+    for n in t1lib.find_all(cls, lambda n: isinstance(n, ast.If)):
+        t = n.test
+        if isinstance(t, ast.Compare) and len(t.ops) == 1 and isinstance(t.ops[0], ast.Eq) and is_row_type(t.left) \
+                and isinstance(t.comparators[0], ast.Constant):
             for c in ast.walk(ast.Module(body=n.body, type_ignores=[])):
-                if isinstance(c, ast.Call) and isinstance(c.func, ast.Attribute) and c.func.attr == "_parse_block" and len(c.args) >= 2 \
-                        and isinstance(c.args[1], ast.Constant):
-                    opened.setdefault(n.test.comparators[0].value, set()).add(c.args[1].value)
-    assert set(opened) == {"begin_for", "begin_block"} and all(len(v) == 1 for v in opened.values()), opened
+                if isinstance(c, ast.Call):
+                    for a in list(c.args) + [k.value for k in c.keywords]:
+                        if isinstance(a, ast.Constant) and a.value in block_types:
+                            opened.setdefault(t.comparators[0].value, set()).add(a.value)
+    assert opened and all(len(v) == 1 for v in opened.values()), opened
     open_map = sorted((k, next(iter(v))) for k, v in opened.items())
+    return sorted(bem.items()), root_name, open_map
 
-    # ShutdownHandler.emit: `if record.levelno >= logging.CRITICAL: print(..., file=sys.stderr); sys.exit(1)`
-    lg = _parse("logger/logger.py")
-    emit = _find_func(_find_class(lg, "ShutdownHandler"), "emit")
-    level_name, level_op, exit_codes, prints_stderr = None, None, [], False
-    for n in ast.walk(emit):
-        if isinstance(n, ast.If) and isinstance(n.test, ast.Compare) and isinstance(n.test.left, ast.Attribute) \
-                and n.test.left.attr == "levelno":
-            level_op = type(n.test.ops[0]).__name__
-            c = n.test.comparators[0]
-            assert isinstance(c, ast.Attribute) and isinstance(c.value, ast.Name) and c.value.id == "logging", ast.dump(c)
-            level_name = c.attr
-            for b in n.body:
-                for x in ast.walk(b):
-                    if _is_call_to(x, "sys.exit"):
-                        exit_codes.append(ast.literal_eval(x.args[0]) if x.args else 0)
-                    if isinstance(x, ast.Call) and isinstance(x.func, ast.Name) and x.func.id == "print":
-                        prints_stderr = any(k.arg == "file" and isinstance(k.value, ast.Attribute) and k.value.attr == "stderr" for k in x.keywords)
-    assert level_name is not None and level_op is not None
-    threshold = getattr(logging, level_name)
-    assert isinstance(threshold, int)
-    exit_code = _one(exit_codes, "sys.exit in ShutdownHandler")
-    # the handler class actually installed on the main logger
-    init = _find_func(lg, "initialize_main_logger")
-    installed = [
-        n.value.func.id for n in ast.walk(init)
-        if isinstance(n, ast.Assign) and isinstance(n.value, ast.Call) and isinstance(n.value.func, ast.Name) and n.value.func.id.endswith("Handler")
-    ]
-    handler_installed = installed == ["ShutdownHandler"] and any(
-        isinstance(n, ast.Call) and isinstance(n.func, ast.Attribute) and n.func.attr == "addHandler" for n in ast.walk(init)
-    )
 
+def probe_shutdown():
+    lg = t1lib.load("rpft.logger.logger")
+    tmp = tempfile.mkdtemp(prefix="t1shutdown")
+    try:
+        h = lg.ShutdownHandler(os.path.join(tmp, "probe.log"), "w")
+        h.setFormatter(logging.Formatter("%(message)s"))
+        exits, codes, stderr_on_exit, stderr_quiet = [], set(), True, True
+        for level in range(0, 61):
+            rec = logging.LogRecord("t1", level, __file__, 0, "t1 probe %d", (level,), None)
+            rec.processing_stack = ""
+            rec.context_variables = {}
+            err = io.StringIO()
+            try:
+                with contextlib.redirect_stderr(err):
+                    h.emit(rec)
+            except SystemExit as e:
+                exits.append(level)
+                codes.add(e.code if isinstance(e.code, int) else (0 if e.code is None else 1))
+                stderr_on_exit = stderr_on_exit and ("t1 probe %d" % level) in err.getvalue()
+            else:
+                stderr_quiet = stderr_quiet and err.getvalue() == ""
+        h.close()
+        assert exits, "ShutdownHandler never exits"
+        threshold = min(exits)
+        op = "GtE" if exits == list(range(threshold, 61)) else "other"
+        exit_code = t1lib.one(codes, "exit status of ShutdownHandler")
+        # the handler installed on the main logger by initialize_main_logger
+        logger = logging.getLogger(getattr(lg, "LOGGER_NAME", "main"))
+        saved = (logger.handlers[:], logger.filters[:], logger.level, logger.propagate, logger.disabled)
+        try:
+            lg.initialize_main_logger(os.path.join(tmp, "errors.log"))
+            main_logger = lg.get_logger()
+            added = [x for x in main_logger.handlers if x not in saved[0]]
+            installed = main_logger is logger and len(added) == 1 and all(isinstance(x, lg.ShutdownHandler) for x in added)
+            for x in added:
+                x.close()
+        finally:
+            logger.handlers[:], logger.filters[:] = saved[0], saved[1]
+            logger.setLevel(saved[2])
+            logger.propagate, logger.disabled = saved[3], saved[4]
+    finally:
+        shutil.rmtree(tmp, ignore_errors=True)
+    return logging.getLevelName(threshold), op, threshold, exit_code, stderr_on_exit, installed
+
+
+def cli_shape():
     # cli.create_flows: statement k calls converters.create_flows(<input>, None, …); a later statement opens args.output
     cli = _parse("cli.py")
     cf = _find_func(cli, "create_flows")
@@ -149,19 +209,32 @@ def tables() -> str:
     main = _find_func(cli, "main")
     has_try = has_try or any(isinstance(x, ast.Try) for x in ast.walk(main))
     open_after = compile_idx is not None and open_idx is not None and compile_idx < open_idx
+    # the logger is initialised when the module is imported (a module-level statement calls it)
     logger_initialised = any(
-        isinstance(n, ast.Assign) and _is_call_to(n.value, "initialize_main_logger") for n in cli.body
+        any(isinstance(x, ast.Call) and (t1lib.dotted(x.func) or "").split(".")[-1] == "initialize_main_logger" for x in ast.walk(st))
+        for st in cli.body if not isinstance(st, (ast.FunctionDef, ast.ClassDef))
     )
+    return open_after, second_arg_none, has_try, logger_initialised
 
+
+def tables() -> str:
+    field_limit, result_limit, cat_limit, key_limit, empty_text_checked = probe_limits()
+    methods, default_method = probe_http()
+    bem, root_name, open_map = block_tables()
+    level_name, level_op, threshold, exit_code, prints_stderr, handler_installed = probe_shutdown()
+    open_after, second_arg_none, has_try, logger_initialised = cli_shape()
     return (
+        "-- limits: behaviour probes (longest accepted length)\n"
         f"def cliMaxFieldValueLen : Nat := {field_limit}\n"
         f"def cliMaxRunResultLen : Nat := {result_limit}\n"
         f"def cliMaxCategoryLen : Nat := {cat_limit}\n"
         f"def cliMaxFieldKeyLen : Nat := {key_limit}\n"
         f"def cliEmptyTextChecked : Bool := {_bool(empty_text_checked)}\n"
+        "-- a set (membership test): sorted\n"
         f"def cliHttpMethods : List (List Char) := {lean_str_list(methods)}\n"
         f"def cliDefaultHttpMethod : List Char := {lean_str(default_method)}\n"
-        f"def cliBlockEndMap : List (List Char × List Char) := {lean_pairs(sorted(bem.items()))}\n"
+        "-- lookup tables with distinct keys: sorted by key\n"
+        f"def cliBlockEndMap : List (List Char × List Char) := {lean_pairs(bem)}\n"
         f"def cliBlockOpenMap : List (List Char × List Char) := {lean_pairs(open_map)}\n"
         f"def cliRootBlockName : List Char := {lean_str(root_name)}\n"
         f"def cliShutdownLevelName : List Char := {lean_str(level_name)}\n"
